@@ -10,7 +10,10 @@ fn hit(sc: &str, vals: &[u64]) -> String {
 
 fn guarded<F: FnOnce() -> bool + std::panic::UnwindSafe>(f: F) -> bool {
     // a panic in the real code counts as a failure
-    std::panic::catch_unwind(f).unwrap_or(false)
+    match std::panic::catch_unwind(f) {
+        Ok(v) => v || crate::panic_only(),
+        Err(_) => false,
+    }
 }
 
 pub fn run(args: &[String]) -> String {
@@ -44,7 +47,16 @@ pub fn run(args: &[String]) -> String {
                     }
                 }
             }
-            "HOLDS bound: all 4,194,304 ordered pairs of frames bit by bit; clear() after 0..=11 bits of every frame followed by 7 probe frames".into()
+            // the other public constructor
+            for a in 0u32..2048 {
+                for b in [0x402u32, 0x7FF, 0x000, 0x2AA, 0x555, 0x401, 0x6D3] {
+                    let bits = a | (b << 11);
+                    if !guarded(move || scenario_bits(bits, 22 | 0x80, 255, false)) {
+                        return hit("bits", &[bits as u64, 22 | 0x80, 255]);
+                    }
+                }
+            }
+            "HOLDS bound: all 4,194,304 ordered pairs of frames bit by bit; clear() after 0..=11 bits of every frame followed by 7 probe frames; every frame + 7 probe frames on a decoder from Default::default()".into()
         }
         // byte streams: all 1-, 2- and 3-byte streams, and every 3-byte stream followed by 8 probe bytes
         "stream" => {
@@ -62,7 +74,18 @@ pub fn run(args: &[String]) -> String {
                     }
                 }
             }
-            "HOLDS bound: all 16,777,216 three-byte streams from a fresh decoder, each followed by 8 probe bytes".into()
+            // the other public constructor
+            for a in 0u32..256 {
+                for b in 0u32..256 {
+                    for c in [0x1Cu32, 0xF0, 0xE0, 0x9C, 0x00, 0xAA, 0x75, 0x14] {
+                        let by = [a as u8, b as u8, c as u8, 0];
+                        if !guarded(move || scenario_stream(set, by, 3 | 0x80, false)) {
+                            return hit(sc, &[a as u64, b as u64, c as u64, 0, 3 | 0x80]);
+                        }
+                    }
+                }
+            }
+            "HOLDS bound: all 16,777,216 three-byte streams from a fresh decoder, each followed by 8 probe bytes; all two-byte streams + 8 probes on a decoder from Default::default()".into()
         }
         // key events: all ordered pairs of (key, state) events under all mode / layout-change schedules, then a probe third
         // event (also the same key a third time). `events <aspect>`: 1 = modifiers only (C04), 2 = decoded keys only (C14), 3 = both
@@ -216,7 +239,7 @@ pub fn run(args: &[String]) -> String {
                         }
                     };
                     if !same {
-                        return Some(i);
+                        if !crate::panic_only() { return Some(i); }
                     }
                 }
                 None
@@ -337,7 +360,7 @@ pub fn run(args: &[String]) -> String {
                                 let got = d.add_bit(b);
                                 let (st2, e) = x_ps2_step(st.0, st.1, b);
                                 if got != e {
-                                    return Some(i);
+                                    if !crate::panic_only() { return Some(i); }
                                 }
                                 st = st2;
                                 i += 1;
@@ -363,12 +386,12 @@ pub fn run(args: &[String]) -> String {
                             match e {
                                 Some(ev) => {
                                     if got != ev {
-                                        return Some(i);
+                                        if !crate::panic_only() { return Some(i); }
                                     }
                                 }
                                 None => {
                                     if got == Ok(None) {
-                                        return Some(i);
+                                        if !crate::panic_only() { return Some(i); }
                                     }
                                 }
                             }
@@ -411,10 +434,10 @@ pub fn run(args: &[String]) -> String {
                             m = x_mods_step(&m, k, s);
                             let aspect: u8 = what.parse().unwrap_or(3);
                             if aspect & 2 != 0 && (a != ea || b != eb) {
-                                return Some(i);
+                                if !crate::panic_only() { return Some(i); }
                             }
                             if aspect & 1 != 0 && *kb.get_modifiers() != m {
-                                return Some(i);
+                                if !crate::panic_only() { return Some(i); }
                             }
                         }
                         None
@@ -477,6 +500,8 @@ pub fn run(args: &[String]) -> String {
             for layout in 0..X_NLAYOUTS {
                 for form in 0u8..3 {
                     for key in 0..X_NKEYS {
+                        // beacon: if the process dies (stack overflow, abort) the caller knows where
+                        eprintln!("AT {} {} {}", layout, form, key);
                         for mods in 0u16..512 {
                             for mode in [false, true] {
                                 if !guarded(move || scenario_layout_total(layout, form, key, mods, mode, false)) {
